@@ -82,7 +82,7 @@ def render(cmd):
     if v in ("ISON", "USERHOST"):
         return v + " " + " ".join(cmd["nicks"])
     if v == "WHOWAS":
-        return "WHOWAS " + cmd["nick"]
+        return "WHOWAS " + cmd["nick"] + (" %d" % cmd["count"] if cmd.get("count") is not None else "")
     raise ValueError(v)
 
 
